@@ -3,8 +3,8 @@ SPEC = {
     'engine': 'claim', 'harness': 'claim.cpp',
     'repo_srcs': ['N2kMsg.cpp', 'N2kStream.cpp', 'N2kMessages.cpp', 'N2kTimer.cpp', 'N2kGroupFunction.cpp', 'N2kGroupFunctionDefaultHandlers.cpp', 'NMEA2000.cpp'],
     'variants': ['', 't32'],
-    'lean_modules': ['N2k.Props.C03'], 'props_files': ['N2k/Props/C03.lean'],
-    'translators': ['pgn_tables'],
+    'lean_modules': ['N2k.Props.Consts.C03', 'N2k.Props.C03'], 'props_files': ['N2k/Props/Consts/C03.lean', 'N2k/Props/C03.lean'],
+    'translators': ['constants', 'pgn_tables'],
     'case_start': ['reset', 'bus'],
     'timeout': 3000,
     'trusted_base': [
